@@ -94,6 +94,40 @@ func band(pix []uint8, stride int, s Spec) {
 		}
 		return
 	}
+	if s.Fill == "widened8" {
+		// 16-bit data widened from 8 bits: every sample's low byte is 0x00 (v<<8), 0x01, or its high byte (v*257), and
+		// every alpha has the high byte 0xFF with a low byte of 0x00, 0x01, 0xFE, 0xFF or anything - a picture that is
+		// opaque to the eye and to a test of the high byte, but not to Opaque()
+		bpp := map[string]int{"NRGBA64": 8, "RGBA64": 8}[s.Type]
+		if bpp == 0 {
+			return
+		}
+		for o := 0; o+bpp <= len(pix); o += bpp {
+			n := uint64(o/bpp)*0x9E3779B97F4A7C15 + s.Seed
+			for k := 0; k < 3; k++ {
+				switch (n >> (8 * uint(k))) % 4 {
+				case 0, 1:
+					pix[o+2*k+1] = 0
+				case 2:
+					pix[o+2*k+1] = 1
+				default:
+					pix[o+2*k+1] = pix[o+2*k]
+				}
+			}
+			pix[o+6] = 0xFF
+			switch (n >> 40) % 6 {
+			case 0, 1:
+				pix[o+7] = 0
+			case 2:
+				pix[o+7] = 1
+			case 3:
+				pix[o+7] = 0xFE
+			case 4:
+				pix[o+7] = 0xFF
+			}
+		}
+		return
+	}
 	if s.Fill == "rowpairs" {
 		// pixel-doubled art, horizontal bands: every odd row repeats the row above it, rows two apart differ
 		if stride <= 0 {
@@ -510,7 +544,7 @@ func Gen(t *rapid.T, label string, o GenOpts) Spec {
 	if rapid.IntRange(0, 5).Draw(t, label+"widestride") == 0 {
 		s.StrideExtra = rapid.SampledFrom([]int{1, 2, 3, 4, 5, 8, 13, 64}).Draw(t, label+"strideextra")
 	}
-	fills := []string{"prng", "prng", "prng", "ff", "zero", "ramp", "rowbands", "colbands", "sparse", "edges", "flatrows", "flatrows", "flatcols", "flat", "opaque", "rowpairs"}
+	fills := []string{"prng", "prng", "prng", "ff", "zero", "ramp", "rowbands", "colbands", "sparse", "edges", "flatrows", "flatrows", "flatcols", "flat", "opaque", "rowpairs", "widened8"}
 	if o.Orbit {
 		fills = append(fills, "orbit-h", "orbit-v")
 	}
